@@ -54,6 +54,7 @@ def run(ctx):
 
     _r6_option_condition_is_equality(ctx, C1)
     _r7_subnet_defaults_whenever_asked(ctx, A1)
+    _r8_null_stays_null(ctx)
     # ---------------- R2: first matching sibling wins (both in apply and in check)
     for body, callee, tag in ((AN, A1.id, "apply"), (CN, C1.id, "check")):
         T = terms(P, body)
@@ -275,6 +276,32 @@ def _assigns_const(body, cfg, tgt, value, loop):
     return False
 
 
+def _r8_null_stays_null(ctx):
+    """R8 `null` removes: the typed option parser hands back None for `null` whatever the option's type — no arm replaces the parser's
+    None by a default value (`unwrap_or_default`, `unwrap_or`)."""
+    P = ctx.P
+    n = 0
+    for b in P.bodies.values():
+        root = b.id.split("::{")[0]
+        if not root.endswith("dhcp::config::Config::parse_generic") or "::test" in b.id:
+            continue
+        n += 1
+        ctx.saw(b)
+        T = terms(P, b)
+        bad = []
+        for bb, tm in b.calls():
+            nme = callee_name(tm) or ""
+            last = nme.rsplit("::", 1)[-1]
+            if last in ("unwrap_or_default", "unwrap_or", "unwrap_or_else", "get_or_insert_with", "get_or_insert") and "Option" in nme and tm["args"]:
+                a = norm(T.call_args(bb)[0])
+                if any(y[0] == "call" and "::parse_" in str(y[1]) for y in subterms(a)):
+                    bad.append("%s at %s" % (last, P.rel(tm["sp"])))
+        ctx.check(not bad, "R8", "null-stays-null-through-the-option-parser", ctx.where(b),
+                  "a parsed `null` (None) is replaced by a default value: %s" % (bad or "-"))
+    if ctx.config in ("default", "dhcp"):
+        ctx.floor("R8", "typed option parser", n, 1)
+
+
 def _r7_subnet_defaults_whenever_asked(ctx, A1):
     """R7 netmask and broadcast of the matched subnet are defaults for *every* matched subnet: once the policy's `match-subnet` is known
     to be present, the only thing that decides whether `mutate_option_default(NETMASK | BROADCAST, subnet.netmask() | .broadcast())`
@@ -393,6 +420,20 @@ def _r6_option_condition_is_equality(ctx, C1):
                   "in the loop over the option conditions the decision becomes true outside an equality test (%d place(s)) or is computed by "
                   "something else (%s)" % (len(bad), [x[2] for x in other] or "nothing"))
     ctx.floor("R6", "decision of the option-condition loop", n, 1)
+    # the two conditions outside the loop fail the policy at once: a hardware address that differs, a receiving address outside
+    # `match-subnet`, lead to `return MatchFailed` — not to a note that a later condition may overwrite
+    m2 = 0
+    for sbb, d, te, fe in bool_switches(P, b, lambda d: d[0] == "call" and (
+            (str(d[1]).rsplit("::", 1)[-1] in ("ne", "eq") and any(y[0] == "field" and y[2] in ("chaddr", "match_chaddr") for a in d[2] for y in subterms(norm(a)))) or
+            (str(d[1]).endswith("Ipv4Subnet::contains") and any(y[0] == "field" and y[2] == "match_subnet" for a in d[2] for y in subterms(norm(a)))))):
+        if any(sbb in l for l in loops):
+            continue
+        m2 += 1
+        last = str(d[1]).rsplit("::", 1)[-1]
+        failing = te if last == "ne" else fe
+        ctx.check(bool(failing) and all(tgt in failed for _, tgt in failing), "R6", "a-failed-condition-ends-the-evaluation:%s" % ("chaddr" if last in ("ne", "eq") else "subnet"),
+                  ctx.where(b), "on the edge where the condition does not hold the function must return MatchFailed")
+    ctx.floor("R6", "conditions tested outside the option loop", m2, 2)
 
 
 def _r5(ctx):
